@@ -304,8 +304,8 @@ def run_history(ctx, case):
             elif kind == "max_stream_data":
                 if streams:
                     sid = streams[op[1] % len(streams)]
-                    if sid % 4 in (2, 3) and False:
-                        continue
+                    if (sid % 2 == 0) == sut_is_client and sid // 4 >= L_streams["uni" if sid % 4 in (2, 3) else "bidi"]:
+                        continue  # a stream the peer has not allowed yet does not exist for it: it cannot grant credit on it (RFC 9000 19.10)
                     v = newval(stream_limit(sid), op[2])
                     sut_call("receive_datagram", tk.send_frames, [{"name": "max_stream_data", "stream_id": sid, "maximum": v}])
                     L_stream[sid] = max(stream_limit(sid), v)
@@ -346,6 +346,39 @@ def run_history(ctx, case):
             elif kind == "timer":
                 sut_call("timer", tk.fire_timer, max_wait=8.0, at_least=0.0005)
             observe()
+        # settle phase: no limit changes; everything is acknowledged and timers run until the SUT falls silent.  Then the SUT must have used all
+        # the credit the latest limits give it (a limit never goes down: RFC 9000 4.1 - a lower or repeated value changes nothing)
+        if not dead[0] and not reset_written:
+            quiet = 0
+            for _ in range(40):
+                if dead[0]:
+                    break
+                n0 = len(tk.sut_packets)
+                sut_call("receive_datagram", tk.send_frames, [{"name": "ping"}])
+                observe()
+                sut_call("timer", tk.fire_timer, max_wait=1.0, at_least=0.0005)
+                observe()
+                acked.update(v.pn for v in tk.sut_packets if v.space == "app" and v.pn is not None)
+                sut_call("receive_datagram", tk.ack)
+                observe()
+                sut_call("timer", tk.fire_timer, max_wait=3.0, at_least=0.0005)
+                observe()
+                fresh = [v for v in tk.sut_packets[n0:] if any(f["name"] == "stream" and len(f["data"]) for f in v.frames or [])]
+                quiet = 0 if fresh else quiet + 1
+                if quiet >= 3:
+                    break
+            if not dead[0] and quiet >= 3 and not reset_written:
+                openable = [sid for sid in streams if not ((sid % 2 == 0) == sut_is_client) or sid // 4 < L_streams["uni" if sid % 4 in (2, 3) else "bidi"]]
+                demand = sum(min(written.get(sid, 0), stream_limit(sid)) for sid in openable)
+                expect = min(L_conn, demand)
+                got = sum(hi.get(sid, 0) for sid in openable)
+                if got < expect:
+                    ctx.violation(
+                        "credit-granted-by-the-peer-not-used",
+                        "after everything was acknowledged and the SUT (%s) fell silent it had sent %d bytes of new stream data in total; the latest limits delivered allow %d (connection limit %d, per-stream demand within stream limits %d): data blocked by a limit is not sent although the limit was raised" % (role, got, expect, L_conn, demand),
+                        case,
+                    )
+                cls.add("settled")
         # fair phase: raise every limit far, acknowledge everything, let timers run
         if not dead[0]:
             L_conn = max(L_conn, 1 << 30)
